@@ -194,8 +194,9 @@ pub fn run(cases: &[Value], trace: &mut Trace, seed: u64, nrandom: usize) {
             trace.emit(json!({"ev": "reset", "id": i}));
         }
         let t = c["t"].as_str().unwrap();
-        let valid = eval(t, &c["m"], &mut rng);
-        trace.emit(json!({"ev": "val", "i": i, "t": t, "m": c["m"], "valid": valid, "src": "lattice"}));
+        // a panic of the validator (e.g. arithmetic overflow in a debug build) is data
+        let r = std::panic::catch_unwind(std::panic::AssertUnwindSafe(|| eval(t, &c["m"], &mut rng)));
+        trace.emit(json!({"ev": "val", "i": i, "t": t, "m": c["m"], "valid": r.as_ref().copied().unwrap_or(false), "panicked": r.is_err(), "src": "lattice"}));
         i += 1;
     }
     for k in 0..nrandom {
@@ -204,8 +205,8 @@ pub fn run(cases: &[Value], trace: &mut Trace, seed: u64, nrandom: usize) {
         }
         let t = TYPES[k % TYPES.len()];
         let m = random_msg(t, &mut rng);
-        let valid = eval(t, &m, &mut rng);
-        trace.emit(json!({"ev": "val", "i": i, "t": t, "m": m, "valid": valid, "src": "random"}));
+        let r = std::panic::catch_unwind(std::panic::AssertUnwindSafe(|| eval(t, &m, &mut rng)));
+        trace.emit(json!({"ev": "val", "i": i, "t": t, "m": m, "valid": r.as_ref().copied().unwrap_or(false), "panicked": r.is_err(), "src": "random"}));
         i += 1;
     }
 }
